@@ -69,8 +69,16 @@ def Law.encS16 (l : Law) (x : Int) : Nat :=
   if x ≥ 0 then l.encTab (Int.tdiv x (2 ^ l.shift)).toNat
   else (l.encTab (Int.tdiv x (-(2 ^ l.shift))).toNat) % 128
 
-/-- `i2ulaw_array`: INT_MIN special case, `x >> 18` / `-x >> 18`. -/
+/-- `i2ulaw_array`: INT_MIN special case (it cannot be negated: the magnitude of INT_MAX is looked up, with the sign mask every
+    other negative sample gets), `x >> 18` / `-x >> 18`. -/
 def Law.encS32 (l : Law) (x : Int) : Nat :=
+  if x = -2147483648 then (l.encTab (asr 2147483647 (16 + l.shift)).toNat) % 128
+  else if x ≥ 0 then l.encTab (asr x (16 + l.shift)).toNat
+  else (l.encTab (asr (-x) (16 + l.shift)).toNat) % 128
+
+/-- the rule before the repair of KF-G711-INTMIN-SIGN: the INT_MIN case forgot the sign mask, so the most negative int was
+    stored as the most POSITIVE code -/
+def Law.encS32Old (l : Law) (x : Int) : Nat :=
   if x = -2147483648 then l.encTab (asr 2147483647 (16 + l.shift)).toNat
   else if x ≥ 0 then l.encTab (asr x (16 + l.shift)).toNat
   else (l.encTab (asr (-x) (16 + l.shift)).toNat) % 128
